@@ -62,12 +62,14 @@ class World:
         self.pool = pool
         a = qobjs.gen("state", "a", pool["csys"])
         self.exp = Experiment(schedules=[[("state", 0), ("povm", 0)], [("state", 0), ("gate", 0), ("povm", 1)]],
-                              states=[a], povms=pool["povm"][:2], gates=pool["gate"][:1])
+                              states=[a], povms=pool["povm"][:2], gates=pool["gate"][:1], seed_data=5)
         self.true_state = a
-        self.qst = StandardQst(pool["tester_povms"])
-        self.povmt = StandardPovmt(pool["tester_states"], 2)
-        self.qpt = StandardQpt(pool["tester_states"], pool["tester_povms"])
-        self.qmpt = StandardQmpt(pool["tester_states"], pool["tester_povms"], 2)
+        # the objects carry a data seed of their own (set at construction): generating data later must neither
+        # re-seed the global stream nor depend on that seed unless reset_seed is called
+        self.qst = StandardQst(pool["tester_povms"], seed_data=5)
+        self.povmt = StandardPovmt(pool["tester_states"], 2, seed_data=6)
+        self.qpt = StandardQpt(pool["tester_states"], pool["tester_povms"], seed_data=7)
+        self.qmpt = StandardQmpt(pool["tester_states"], pool["tester_povms"], 2, seed_data=8)
 
     def call(self, ep, sg):
         from quara.qcircuit import data_generator as dg
